@@ -9,7 +9,7 @@ use splgen::lsp::{self, Change};
 use splgen::src::{fnv, Src};
 use std::collections::BTreeMap;
 
-pub const URIS: [&str; 5] = ["file:///w/a.spl", "untitled:///w/a.spl", "file:///w/b.spl", "file://host/w/a.spl", "file:///w/a.spl.bak"];
+pub const URIS: [&str; 32] = ["file:///w/a.spl", "untitled:///w/a.spl", "file:///w/b.spl", "file://host/w/a.spl", "file:///w/a.spl.bak", "file:///w/doc5.spl", "file:///w/doc6.spl", "file:///w/doc7.spl", "file:///w/doc8.spl", "file:///w/doc9.spl", "file:///w/doc10.spl", "file:///w/doc11.spl", "file:///w/doc12.spl", "file:///w/doc13.spl", "file:///w/doc14.spl", "file:///w/doc15.spl", "file:///w/doc16.spl", "file:///w/doc17.spl", "file:///w/doc18.spl", "file:///w/doc19.spl", "file:///w/doc20.spl", "file:///w/doc21.spl", "file:///w/doc22.spl", "file:///w/doc23.spl", "file:///w/doc24.spl", "file:///w/doc25.spl", "file:///w/doc26.spl", "file:///w/doc27.spl", "file:///w/doc28.spl", "file:///w/doc29.spl", "file:///w/doc30.spl", "file:///w/doc31.spl"];
 
 #[derive(Clone, Debug)]
 pub enum Op {
@@ -38,11 +38,21 @@ fn counter_doc(k: usize) -> String {
 pub fn decode(bytes: &[u8]) -> Burst {
     let mut s = Src::new(bytes);
     let diagnostics = s.chance(2, 3);
-    let n_uris = 2 + s.below(3);
+    // one burst in eight works on many documents (17-32, all open at the same time)
+    let many = s.chance(1, 8);
+    let n_uris = if many { 17 + s.below(16) } else { 2 + s.below(3) };
     let n = 100 + s.below(700);
     let mut model: Vec<Option<String>> = vec![None; n_uris];
     let mut ops = Vec::new();
     let mut counter = 0usize;
+    if many {
+        for u in 0..n_uris {
+            counter += 1;
+            let text = counter_doc(counter);
+            model[u] = Some(text.clone());
+            ops.push(Op::Open(u, text));
+        }
+    }
     // floods: long runs of consecutive change notifications on a larger document, so that the
     // broker (which re-analyses on every change) falls behind and its channel of 32 fills up;
     // the read that follows must still see every change, in order
